@@ -22,6 +22,7 @@ type bufferedConn struct {
 	buf    *packetio.Buffer
 	logger logging.LeveledLogger
 	closed int32
+	done   chan struct{} // closed when writeProcess has ended
 }
 
 func newBufferedConn(conn net.Conn, bufSize int, logger logging.LeveledLogger) net.Conn {
@@ -34,6 +35,7 @@ func newBufferedConn(conn net.Conn, bufSize int, logger logging.LeveledLogger) n
 		Conn:   conn,
 		buf:    buf,
 		logger: logger,
+		done:   make(chan struct{}),
 	}
 
 	go bc.writeProcess()
@@ -51,6 +53,8 @@ func (bc *bufferedConn) Write(b []byte) (int, error) {
 }
 
 func (bc *bufferedConn) writeProcess() {
+	defer close(bc.done)
+
 	// Buffered packets are already framed: payload up to receiveMTU plus the length header.
 	pktBuf := make([]byte, receiveMTU+streamingPacketHeaderLen)
 	for atomic.LoadInt32(&bc.closed) == 0 {
@@ -84,7 +88,12 @@ func (bc *bufferedConn) Close() error {
 	atomic.StoreInt32(&bc.closed, 1)
 	_ = bc.buf.Close()
 
-	return bc.Conn.Close()
+	// Closing the socket releases a write that is blocked in it; only then can the writer
+	// goroutine be waited for, so that nothing of this connection runs on after Close.
+	err := bc.Conn.Close()
+	<-bc.done
+
+	return err
 }
 
 type tcpPacketConn struct {
